@@ -144,6 +144,8 @@ func runTLSScenario(rec *recorder, id string, events []tlsEvent, cas map[string]
 	var loaded []loadedCfg
 	dirty, refreshing := false, false
 	rewrites := 0
+	content := "ca1"
+	refreshingCfg := map[int]bool{}
 	ptrs := map[*tls.Config]string{}
 	observe := func() []any {
 		out := []any{}
@@ -191,13 +193,15 @@ func runTLSScenario(rec *recorder, id string, events []tlsEvent, cas map[string]
 			loaded = append(loaded, loadedCfg{cfg: c, ptr: p, kept: kept})
 			if e.CA == "file" && e.Interval > 0 {
 				refreshing = true
+				refreshingCfg[len(loaded)-1] = true
 			}
 		case "rewrite":
-			content := []byte("this is not a certificate")
+			content = e.Content
+			data := []byte("this is not a certificate")
 			if ca, ok := cas[e.Content]; ok {
-				content = ca.pem
+				data = ca.pem
 			}
-			if err := os.WriteFile(file, content, 0o600); err != nil {
+			if err := os.WriteFile(file, data, 0o600); err != nil {
 				return err
 			}
 			rewrites++
@@ -208,23 +212,39 @@ func runTLSScenario(rec *recorder, id string, events []tlsEvent, cas map[string]
 			}
 			dirty = true
 		case "wait":
-			// let the refresh interval elapse: bounded polling until the observation changes, at most 200 intervals.
-			// When nothing can change (no rewrite since the last wait, or no refreshing file configuration) three intervals do.
-			before, _ := json.Marshal(observe())
-			deadline := time.Now().Add(200 * tlsInterval)
+			// let the refresh interval elapse. How long to wait is a matter of patience, not of judgement: when the file holds a
+			// usable CA the driver polls (up to 200 intervals) until every refreshing configuration shows it; when it holds
+			// something unusable, or nothing changed since the last wait, nothing is expected to change and ten intervals do.
 			time.Sleep(3 * tlsInterval)
-			if !dirty || !refreshing {
-				deadline = time.Now()
+			if dirty && refreshing {
+				if ca, usable := cas[content]; usable {
+					deadline := time.Now().Add(200 * tlsInterval)
+					for time.Now().Before(deadline) {
+						all := true
+						for i, lc := range loaded {
+							if !refreshingCfg[i] {
+								continue
+							}
+							other := cas["ca1"]
+							if ca == cas["ca1"] {
+								other = cas["ca2"]
+							}
+							if !handshake(lc.cfg, pool, ca.addr) || handshake(lc.cfg, pool, other.addr) {
+								all = false
+								break
+							}
+						}
+						if all {
+							break
+						}
+						time.Sleep(tlsInterval)
+					}
+					time.Sleep(2 * tlsInterval)
+				} else {
+					time.Sleep(10 * tlsInterval)
+				}
 			}
 			dirty = false
-			for time.Now().Before(deadline) {
-				now, _ := json.Marshal(observe())
-				if string(now) != string(before) {
-					time.Sleep(3 * tlsInterval) // let the other watchers catch up too
-					break
-				}
-				time.Sleep(tlsInterval)
-			}
 		}
 		alive := 0
 		for _, n := range internal.VerifAliveWatchers(pool) {
